@@ -948,6 +948,12 @@ func (x *FnExec) instr(fr *frame, n *node, in ssa.Instruction) error {
 		env[in] = res
 	case *ssa.Go:
 		x.q.note("go statement: spawned function not executed at the spawn site")
+		c := in.Common()
+		var args []Val
+		for _, a := range c.Args {
+			args = append(args, x.value(fr, env, a))
+		}
+		x.siteGuards("go", fr, n, in, c, calleeKey(c), args, reach, 0)
 	case *ssa.Defer:
 		cp := make(map[ssa.Value]Val, len(env))
 		for k, v := range env {
